@@ -5,12 +5,32 @@ Used by the thorough tier (self-test variants under /verif/selftest and kept see
 The scratch copy lives under $(mktemp -d) outside /repo and /verif and is removed immediately.
 """
 import os
+import re
 import shutil
 import subprocess
 import sys
 import tempfile
 
 from . import extract
+
+
+def _src_only(patch, d):
+    """a copy of the patch without the file sections outside src/ (and the Cargo files); the original when nothing is dropped"""
+    text = open(patch, errors="replace").read()
+    parts = re.split(r"(?m)^(?=diff --git )", text)
+    keep, dropped = [], 0
+    for part in parts:
+        m = re.match(r"diff --git a/(\S+) b/(\S+)", part)
+        if m and not (m.group(2).startswith("src/") or m.group(2) in ("Cargo.toml", "Cargo.lock", "build.rs")):
+            dropped += 1
+            continue
+        keep.append(part)
+    if not dropped:
+        return patch
+    out = os.path.join(d, "_src_only.diff")
+    with open(out, "w") as f:
+        f.write("".join(keep))
+    return out
 
 
 def make_scratch(repo, patch):
@@ -22,6 +42,8 @@ def make_scratch(repo, patch):
         elif os.path.exists(p):
             shutil.copy(p, os.path.join(d, name))
     if patch:
+        # only what the analysis reads: file sections for tests/ (a feature's own tests) have nothing to apply to in the scratch copy
+        patch = _src_only(patch, d)
         r = subprocess.run(["git", "apply", "--unsafe-paths", "--directory", d, os.path.abspath(patch)], cwd="/",
                            stdout=subprocess.PIPE, stderr=subprocess.STDOUT, text=True)
         if r.returncode != 0:
